@@ -1,1 +1,4 @@
 //! Independent models (share no code with lc3-ensemble).
+pub mod isa;
+pub mod stmt;
+pub mod asm;
